@@ -261,12 +261,17 @@ func genBatch(t *rapid.T) batchCase {
 	nServers := rapid.IntRange(1, 4).Draw(t, "nservers")
 	nUnits := rapid.IntRange(1, 3).Draw(t, "nunits")
 	invalidRate := rapid.SampledFrom([]int{0, 0, 0, 20}).Draw(t, "invalid_rate")
+	colliding := rapid.IntRange(0, 5).Draw(t, "colliding_names") == 0
 	bases := []int{0, 1, 65535, 65536 - limit, 65536 - limit - 1, 30000}
 	base := rapid.SampledFrom(bases).Draw(t, "base")
 	for i := 0; i < n; i++ {
 		f := modbus.Field{Name: fmt.Sprintf("f%d", i)}
 		f.ServerAddress = servers[rapid.IntRange(0, nServers-1).Draw(t, "server")]
 		f.UnitID = []uint8{0, 255, 1, 128}[rapid.IntRange(0, nUnits-1).Draw(t, "unit")]
+		if colliding {
+			f.ServerAddress = rapid.SampledFrom([]string{"h:502", "h:5021", "h:50", "h:502_1"}).Draw(t, "cserver")
+			f.UnitID = rapid.SampledFrom([]uint8{1, 11, 21, 2, 12, 211}).Draw(t, "cunit")
+		}
 		// kind: mostly the requested kind
 		coil := wantCoils
 		if rapid.IntRange(0, 5).Draw(t, "otherkind") == 0 {
